@@ -22,9 +22,83 @@ def table_units(shapes, name='per table', split_from=8, extra=None):
 
 
 def order(us):
-    us.sort(key=lambda u: -(u['args']['n'] ** 2 * u['args']['m']) * (8 if u['fn'] != 'unit_kernel' else 1))
+    us.sort(key=lambda u: -(min(u['args']['n'], 12) ** 2 * min(u['args']['m'], 12)) * (8 if u['fn'] != 'unit_kernel' else 1)
+            - (1000 if 'fixed' in u['args'] or u['fn'] == 'unit_inductive' else 0))
     return us
 
 
-QUICK_TABLES = [(1, 1), (1, 2), (1, 3), (2, 1), (2, 2), (3, 1), (3, 2), (2, 3), (3, 3)]
+QUICK_TABLES = [(1, 1), (1, 2), (1, 3), (2, 1), (2, 2), (3, 1), (3, 2), (2, 3), (3, 3), (4, 1), (1, 4), (4, 2), (2, 4)]
 THOROUGH_TABLES = [(n, m) for n in range(1, 5) for m in range(1, 5)]
+
+
+# -- wide tables -------------------------------------------------------------------------------------------------
+
+import random
+
+
+def skeleton(n, m, kind, rnd):
+    if kind == 'chain':
+        return [[j * n <= i * m for j in range(m)] for i in range(n)]
+    if kind == 'nominal':
+        return [[i % m == j for j in range(m)] for i in range(n)]
+    if kind == 'interval':
+        return [[(i >= 3 * j) and (i < n - 2 * j) for j in range(m)] for i in range(n)]
+    if kind == 'dup':
+        base = [[rnd.random() < 0.5 for j in range(m)] for _ in range(3)]
+        return [list(base[i % 3]) for i in range(n)]
+    return [[rnd.random() < 0.6 for j in range(m)] for i in range(n)]
+
+
+def skeleton_units(tier, seed, extra=None):
+    """concrete structured tables wider than a machine word (or with more than 8 rows), k cells symbolic"""
+    if tier == 'quick':
+        specs = [(9, 3, 'interval', 4), (12, 2, 'nominal', 3), (66, 2, 'chain', 3), (2, 66, 'nominal', 3)]
+    else:
+        specs = [(9, 3, 'interval', 6), (12, 2, 'nominal', 6), (10, 4, 'random', 6), (17, 3, 'dup', 5),
+                 (66, 2, 'chain', 6), (66, 2, 'nominal', 6), (2, 66, 'nominal', 6), (2, 66, 'chain', 6),
+                 (70, 3, 'interval', 6), (3, 70, 'random', 5), (130, 2, 'dup', 5), (2, 130, 'interval', 5)]
+    us = []
+    for n, m, kind, k in specs:
+        rnd = random.Random(seed * 7919 + n * 131 + m)
+        base = skeleton(n, m, kind, rnd)
+        # symbolic cells around the machine-word boundary and at the ends
+        rows = sorted({0, n - 1, min(n - 1, 63), min(n - 1, 64), n // 2} if n > m else set(range(n)))
+        cols = sorted({0, m - 1, min(m - 1, 63), min(m - 1, 64), m // 2} if m > n else set(range(m)))
+        cand = [(i, j) for i in rows for j in cols]
+        pos = rnd.sample(cand, min(k, len(cand)))
+        fixed = [[None if (i, j) in pos else bool(base[i][j]) for j in range(m)] for i in range(n)]
+        args = {'n': n, 'm': m, 'fixed': fixed, 'skeleton': kind}
+        if extra:
+            args.update(extra)
+        us.append({'name': f'wide skeleton {kind} {n}x{m}', 'fn': 'unit_table', 'args': args, 'split': 4})
+    return us
+
+
+def inductive_units(tier):
+    shapes = [(66, 2), (2, 66)] if tier == 'quick' else [(66, 2), (2, 66), (70, 3), (3, 70), (130, 2), (2, 130)]
+    us = []
+    for n, m in shapes:
+        for f in ('prime', 'double', 'doubleprime'):
+            for side in ('intension', 'extension'):
+                us.append({'name': f'kernel inductive step {n}x{m}', 'fn': 'unit_inductive',
+                           'args': {'n': n, 'm': m, 'f': f, 'side': side}})
+    return us
+
+
+def inductive_unit_for(pid):
+    def unit_inductive(args, prefix=(), max_depth=None):
+        r = c01.unit_inductive(args, prefix, max_depth)
+        for c in r['cex']:
+            c['kind'] = f'table:{pid}'
+            c['probe'] = True
+        return r
+    return unit_inductive
+
+
+def lattice_level_units(tier, seed, tables=None, extra=None, split_from=8):
+    """kernel == contract for every small shape used, inductive kernel step for the wide widths, per-table units for
+    all small tables and for the wide skeletons"""
+    t = tables or (QUICK_TABLES if tier == 'quick' else THOROUGH_TABLES)
+    us = gen.kernel_units(t) + inductive_units(tier) + table_units(t, split_from=split_from, extra=extra) \
+        + skeleton_units(tier, seed, extra=extra)
+    return us
